@@ -2545,7 +2545,8 @@ def _print_unknown_import_message(statement, exception):
   log_str = 'Skipping import of unknown module `%s` (skip_unknown=True).'
   log_args = [statement.module]
   imported_modules = statement.module.split('.')
-  exception_modules = exception.name.split('.')
+  # (`name` is None when the module itself raised a bare `ImportError`.)
+  exception_modules = (exception.name or '').split('.')
   modules_match = imported_modules[:len(exception_modules)] == exception_modules
   if not modules_match:
     # In case the error comes from a nested import (i.e. the module is
